@@ -33,7 +33,11 @@ def run(ctx):
     ctx.rule('C05.f-no-hidden-inputs', 'no reachable function reads a non-table static, a thread-local or a nondeterminism source')
     ctx.rule('C05.g-failed-call-leaves-no-trace', 'no mutation of codec state reaches an Err exit: results cannot depend on failed calls made in between (clause shared with C07.atomic)')
     from . import c07
-    ctx.guard('C05.analysable', ctx.shared, {'C07.atomic': 'C05.g-failed-call-leaves-no-trace'}, c07.check_cfg, ctx, ctx.facts('x86_64'), 'x86_64')
+    for c_ in ('x86_64', 'x86_64+release'):      # +release: what cfg(debug_assertions) hides from a dev build
+        ctx.guard('C05.analysable', ctx.shared, {'C07.atomic': 'C05.g-failed-call-leaves-no-trace'}, c07.check_cfg, ctx, ctx.facts(c_), c_)
+    ctx.rule('C05.i-new-and-reset-decide-alike', 'new and reset of the default rate take the rate from the one decision function on (original_count, recovery_count): a reset codec is the codec a fresh one would be (clause shared with C09.b)')
+    from . import c09 as c09_
+    ctx.guard('C05.analysable', ctx.shared, {'C09.b-single-source': 'C05.i-new-and-reset-decide-alike'}, c09_.check, ctx, ctx.facts('x86_64'), 'x86_64')
     ctx.rule('C05.h-grow-only-lengths', 'the length of the grow-only bitmap and the capacity of the store (which remember the largest configuration ever used) are read only to decide whether to grow')
     for cfg in cfgs:
         facts = ctx.facts(cfg)
@@ -175,7 +179,7 @@ class Events:
             self._block(e0['body'], p, nest + 1)
             return
         if k == 'block':
-            self._block(e0, p, nest)
+            self._block(e0, p, nest, flat=bool(e0.get('modelled')))
             return
         if k == 'match':
             self._scan(e0['scrut'], p, nest)
